@@ -198,7 +198,64 @@ func runC09(x *simkit.Exec) {
 		"q0_series": cnt[0].Series, "q0_chunks": cnt[0].Chunks, "q0_perblock_series": cnt[0].PerBlockSeries, "faults": faults, "cfg": cfg.sample()}
 	x.Nontrivial = cnt[0].Series > 0 && (cfg.SeriesLimit > 0 || cfg.ChunkLimit > 0)
 
-	runClients(x, f, "c09", cfg, nclients, faults, nil, func(s *simkit.Sim, g *gateway, ctx context.Context, actor string, c int, begin func(string) bool) {
+	// The per-request limits of the other stores (sidecar, receive, ruler: store.NewLimitedStoreServer around
+	// their local store) are decided differentially: the same TSDBStore answers every request of the pool
+	// once without limits, which gives the counts, and once behind limits drawn around those counts.
+	limSeriesOff := x.Draw("limited.series", 4) // 0: no series limit; 1..3: true count -1, +0, +1
+	limChunksOff := x.Draw("limited.chunks", 4)
+	limitedTSDB := func(s *simkit.Sim, g *gateway) func() {
+		tsdbStore, closeTSDB := openTSDBStore(x, f, 0)
+		if tsdbStore == nil {
+			return closeTSDB
+		}
+		s.Go("limited-tsdb-client", func() {
+			ctx := context.Background()
+			for qi, q := range pool {
+				if s.Park(ctx, s.OpID("limited-tsdb-client", "begin", fmt.Sprint(qi))) != nil {
+					return
+				}
+				plain, _ := callSeries(ctx, tsdbStore, q)
+				if plain.Err != nil {
+					continue
+				}
+				nSeries, nChunks := uint64(len(plain.Series)), uint64(0)
+				for _, gs := range plain.Series {
+					nChunks += uint64(len(gs.Chunks))
+				}
+				lim := store.SeriesSelectLimits{}
+				if limSeriesOff > 0 && nSeries+uint64(limSeriesOff) >= 2 {
+					lim.SeriesPerRequest = nSeries + uint64(limSeriesOff) - 2
+				}
+				chunkLimit := uint64(0)
+				if limChunksOff > 0 && nChunks+uint64(limChunksOff) >= 2 {
+					chunkLimit = nChunks + uint64(limChunksOff) - 2
+					lim.SamplesPerRequest = chunkLimit * store.MaxSamplesPerChunk
+				}
+				limited, _ := callSeries(ctx, store.NewLimitedStoreServer(tsdbStore, prometheus.NewRegistry(), lim), q)
+				over := (lim.SeriesPerRequest > 0 && nSeries > lim.SeriesPerRequest) || (chunkLimit > 0 && nChunks > chunkLimit)
+				what := fmt.Sprintf("TSDBStore behind NewLimitedStoreServer(series=%d, samples=%d i.e. %d chunks): query %s; without limits it returns %d series with %d chunks",
+					lim.SeriesPerRequest, lim.SamplesPerRequest, chunkLimit, q, nSeries, nChunks)
+				switch {
+				case over && limited.Err == nil:
+					s.Violate("over-limit-fails-with-resource-exhausted", "limited-store-server:over-limit-succeeded", "%s; behind the limits it succeeded with %d series", what, len(limited.Series))
+					return
+				case !over && limited.Err != nil:
+					s.Violate("within-limit-succeeds", "limited-store-server:within-limit-failed", "%s; behind the limits it failed: %v", what, limited.Err)
+					return
+				case !over && len(limited.Series) != len(plain.Series):
+					s.Violate("success-is-complete", "limited-store-server:truncated", "%s; behind the limits it returned %d series", what, len(limited.Series))
+					return
+				}
+				if over {
+					s.Probe("c09.limited_store_server_refused")
+				} else {
+					s.Probe("c09.limited_store_server_passed")
+				}
+			}
+		})
+		return closeTSDB
+	}
+	runClients(x, f, "c09", cfg, nclients, faults, limitedTSDB, func(s *simkit.Sim, g *gateway, ctx context.Context, actor string, c int, begin func(string) bool) {
 		for _, qi := range plans[c] {
 			if !begin(fmt.Sprintf("q%d", qi)) {
 				return
